@@ -73,7 +73,9 @@ fn probes<const D: usize>(w: &mut World<D>, hid: usize, s: usize, op: &str, rng:
 fn history<const D: usize>(hid: usize, rng: &mut Rng, out: &mut Out, steps: usize, budget: usize) {
     let np = D + 2 + rng.below(5) as usize;
     let ps = gens::point_set(rng, D, np);
-    let Some(mut w): Option<World<D>> = hist::start_built::<D>(&ps.pts, 1, rng) else { return };
+    // the batch build's dedup policy decides the cell size of the grid it leaves behind
+    let dedup = [0u8, 0, 1, 2, 3, 3][rng.below(6) as usize];
+    let Some(mut w): Option<World<D>> = hist::start_built_with::<D>(&ps.pts, 1, &tri::Opts { order: 3, dedup, simplex: 0, retry: 0 }, rng) else { return };
     probes(&mut w, hid, 0, "build", rng, out, budget);
     for s in 1..=steps {
         let op = match rng.below(9) {
